@@ -2223,7 +2223,13 @@ func (c *RemoteClient) handleMessage(ctx context.Context, m *Message) error {
 			}, "Wrong message ID in tx message")
 		} else {
 			c.nextMessageID.Store(msg.ID + 1)
-			c.addHandlerMessage(ctx, m)
+			if err := c.addHandlerMessage(ctx, m); err != nil {
+				// Not queued, so this id is still the next one to deliver.
+				c.nextMessageID.Store(msg.ID)
+				logger.WarnWithFields(ctx, []logger.Field{
+					logger.Uint64("message_id", msg.ID),
+				}, "Failed to queue message for handlers : %s", err)
+			}
 		}
 
 	case *TxUpdate:
@@ -2240,7 +2246,13 @@ func (c *RemoteClient) handleMessage(ctx context.Context, m *Message) error {
 			}, "Wrong message ID in tx update message")
 		} else {
 			c.nextMessageID.Store(msg.ID + 1)
-			c.addHandlerMessage(ctx, m)
+			if err := c.addHandlerMessage(ctx, m); err != nil {
+				// Not queued, so this id is still the next one to deliver.
+				c.nextMessageID.Store(msg.ID)
+				logger.WarnWithFields(ctx, []logger.Field{
+					logger.Uint64("message_id", msg.ID),
+				}, "Failed to queue message for handlers : %s", err)
+			}
 		}
 
 	case *Headers:
